@@ -132,6 +132,20 @@ def _sat_sub(ctx, a, ty, c):
     return Int(z3.If(z3.ULT(x.e, y.e), z3.BitVecVal(0, x.bits), x.e - y.e), x.bits, x.signed)
 
 
+@summary(r"^core::num::<impl \w+>::(to_le|from_le)$")
+def _to_le(ctx, a, ty, c):
+    # the MIR is dumped for a little-endian target
+    return ctx.force(a[0])
+
+
+@summary(r"^core::num::<impl (u\d+|usize)>::saturating_mul$")
+def _sat_mul(ctx, a, ty, c):
+    x, y = ctx.force(a[0]), ctx.force(a[1])
+    wide = z3.ZeroExt(x.bits, x.e) * z3.ZeroExt(x.bits, y.e)
+    ovf = z3.Extract(2 * x.bits - 1, x.bits, wide) != 0
+    return Int(z3.If(ovf, z3.BitVecVal(-1, x.bits), z3.Extract(x.bits - 1, 0, wide)), x.bits, x.signed)
+
+
 @summary(r"^core::num::<impl \w+>::wrapping_(add|sub)$")
 def _wrap(ctx, a, ty, c):
     x, y = ctx.force(a[0]), ctx.force(a[1])
@@ -467,7 +481,7 @@ def _u256_try(ctx, a, ty, c):
     return err(ty, Obj("TryFromIntError"))
 
 
-@summary(r"^<U256 as From<(u8|u16|u32|u64|u128|usize|bool)>>::from$|^U256::new$|^U256::from_words$")
+@summary(r"^<U256 as From<(u8|u16|u32|u64|u128|usize|bool|impl Into<U256>|T)>>::from$|^U256::new$|^U256::from_words$")
 def _u256_from(ctx, a, ty, c):
     if c.endswith("from_words"):
         hi, lo = ctx.force(a[0]), ctx.force(a[1])
@@ -475,6 +489,10 @@ def _u256_from(ctx, a, ty, c):
     x = ctx.force(a[0])
     if isinstance(x, Bool):
         return Int(z3.If(x.e, z3.BitVecVal(1, 256), z3.BitVecVal(0, 256)), 256)
+    if not isinstance(x, Int):
+        raise Unsupported("U256::from(%r)" % (x,))
+    if x.bits == 256:
+        return x
     return Int(z3.ZeroExt(256 - x.bits, x.e), 256)
 
 
